@@ -19,7 +19,9 @@ func compileClass(vm *r.VM, classID *r.IDName, classNode *syntax.ClassDeclareStm
 			return nil, err
 		}
 
-		ref.DefineProperty(propID, element)
+		// the type keeps its own copy of the default value: a default written as a name
+		// (其数 = 基) must not change when that name's value is later changed in place
+		ref.DefineProperty(propID, value.DuplicateValue(element))
 	}
 
 	// add getters
